@@ -501,8 +501,11 @@ def _check_case(ctx: Ctx, c: dict):
     elif k == "text":
         name, v = c["opt"], c["value"]
         cls = OPTS.get(name, "other")
-        native = run_impl(single("kwargs", name, v))
-        compare_K(ctx, c, single("kwargs", name, v), native, "native value")
+        nl = c.get("native_layer", "kwargs")
+        native = run_impl(single(nl, name, v))
+        compare_K(ctx, c, single(nl, name, v), native, "native value")
+        if c.get("component") is not None:
+            ctx.count(f"component:{cls.split('|')[0]}:{c['component']}:native:" + ("rejected" if "error" in native else "accepted"))
         if "error" in native:
             ctx.count("text:native-rejected")
             return
@@ -538,7 +541,10 @@ def _check_case(ctx: Ctx, c: dict):
     elif k == "alt":
         name, text, layer = c["opt"], c["text"], c["layer"]
         sc = single(layer, name, text)
-        compare_K(ctx, c, sc, run_impl(sc), "string form")
+        r = run_impl(sc)
+        compare_K(ctx, c, sc, r, "string form")
+        if c.get("component") is not None:
+            ctx.count(f"component:{OPTS.get(name, 'other').split('|')[0]}:{c['component']}:text:" + ("rejected" if "error" in r else "accepted"))
     elif k == "envtext":
         # a text the environment layer accepts must mean the same in every other layer, incl. as a bare TOML literal
         name, text = c["opt"], c["text"]
@@ -576,6 +582,8 @@ def _check_case(ctx: Ctx, c: dict):
         r = run_impl(sc)
         compare_K(ctx, c, sc, r, "wrong-type value")
         ctx.count(f"wrong:{cls.split('|')[0]}:{label}:{'rejected' if 'error' in r else 'ACCEPTED'}")
+        if c.get("component") is not None:
+            ctx.count(f"component:{cls.split('|')[0]}:{c['component']}:native:" + ("rejected" if "error" in r else "ACCEPTED"))
         if "error" not in r:
             ctx.violation("a value of a type the option does not admit is accepted", c,
                           {"class": cls, "value_class": label, "effective": tok(r["config"]["values"][name])},
@@ -588,6 +596,8 @@ def _check_case(ctx: Ctx, c: dict):
         sc = c["sc"]
         res = run_impl(sc)
         impl = compare_K(ctx, c, sc, res, "constructor (toml case)")
+        if c.get("component") is not None:
+            ctx.count("component:size:" + c["component"].split(":")[-1] + ":toml-roundtrip:" + ("not-accepted" if "error" in impl else "accepted"))
         if "error" in impl:
             ctx.count("toml:ctor-error")
             return
@@ -657,6 +667,80 @@ def _check_case(ctx: Ctx, c: dict):
 
 
 # ------------------------------------------------------------------------------------------------
+# structured values, one COMPONENT at a time
+# ------------------------------------------------------------------------------------------------
+# value classes of one component of a structured value (label, value, is the TYPE wrong for an int component?)
+INT_COMPONENT_CLASSES = [("zero", 0, False), ("minus-one", -1, False), ("negative", -7, False), ("one", 1, False), ("large", 2 ** 31, False),
+                         ("true", True, True), ("false", False, True), ("float", 8.0, True), ("float-fraction", 0.5, True), ("none", None, True),
+                         ("digit-text", "8", True)]
+
+
+def _py_text(v) -> str:
+    """how the component reads inside a textual form when somebody formats it the obvious way"""
+    return str(v)
+
+
+def component_cases(names, quick: bool):
+    """For the options whose values have components (sizes `WxH`, subspaces `B:E`, format lists): every component is driven
+    through every value class on its own - the other component(s) stay good - natively (kwargs, config_overrides) and in the
+    textual form (env, kwargs, config_overrides, config file).  Judged by the statement only: a natively ACCEPTED value must be
+    accepted with the same meaning in its textual form from every layer (`text`), must survive dump -> load (`toml`); a component
+    of the wrong TYPE (bool, float, None, text, wrong arity) must be rejected naming the option (`wrong`); what a text means is
+    compared with the model in every layer (`alt`) and between the layers (`envtext`)."""
+    text_layers = ["env", "kwargs", "overrides", "file"]
+    for name in names:
+        base = OPTS[name].split("|")[0]
+        if base == "size":
+            good = (8, 16)
+            for i in (0, 1):
+                for label, bad, wrong_type in INT_COMPONENT_CLASSES:
+                    comp = f"{'WH'[i]}={label}"
+                    items = list(good)
+                    items[i] = bad
+                    v = T(*items)
+                    if wrong_type:
+                        for layer in ("kwargs", "overrides"):
+                            yield {"k": "wrong", "opt": name, "value": v, "layer": layer, "label": "component-" + label, "component": comp}
+                    else:
+                        for layer in ("kwargs", "overrides"):
+                            yield {"k": "text", "opt": name, "value": v, "native_layer": layer, "component": comp}
+                        yield {"k": "toml", "sc": {"file": None, "env": {}, "kwargs": [[name, v]], "overrides": None}, "modes": ["plain"],
+                               "component": f"{name}:{comp}"}
+                    text = "x".join(_py_text(x) for x in items)
+                    for layer in text_layers:
+                        yield {"k": "alt", "opt": name, "text": text, "layer": layer, "component": comp}
+                    yield {"k": "envtext", "opt": name, "text": text}
+            # both components bad at once, and the wrong number of components
+            for v in (T(0, 0), T(-1, -1), T(0, -3)):
+                for layer in ("kwargs", "overrides"):
+                    yield {"k": "text", "opt": name, "value": v, "native_layer": layer, "component": "both-bad"}
+            for label, v in (("arity-0", T()), ("arity-1", T(8)), ("arity-3", T(8, 16, 2)), ("arity-3-bad-last", T(8, 16, 0)), ("nested", T(8, T(16)))):
+                for layer in ("kwargs", "overrides"):
+                    yield {"k": "wrong", "opt": name, "value": v, "layer": layer, "label": "component-" + label, "component": label}
+            for text in ("8", "8x16x2", "8x16x0", "x", "8xx16"):
+                for layer in text_layers:
+                    yield {"k": "alt", "opt": name, "text": text, "layer": layer, "component": "arity-text"}
+        elif base == "subspace":
+            for i, goodv in ((0, ("{}", "9")), (1, ("5", "{}"))):
+                for label, bad in (("zero", 0), ("minus-one", -1), ("last", 255), ("end", 256), ("beyond", 257), ("true", True), ("float", 1.0),
+                                   ("none", None), ("word", "a"), ("empty", ""), ("equal-other", 9 if i == 0 else 5), ("past-other", 10 if i == 0 else 4)):
+                    text = ":".join(goodv).format(_py_text(bad))
+                    for layer in (text_layers[:2] if quick else text_layers):
+                        yield {"k": "alt", "opt": name, "text": text, "layer": layer, "component": f"{'BE'[i]}={label}"}
+                    yield {"k": "envtext", "opt": name, "text": text}
+        elif base == "formats":
+            for i in (0, 1, 2):
+                for label, bad in (("int", 1), ("none", None), ("true", True), ("float", 1.5), ("list", ["png"]), ("tuple", T("png"))):
+                    items = ["png", "jpeg"]
+                    items.insert(i, bad)
+                    for layer in ("kwargs", "overrides"):
+                        yield {"k": "wrong", "opt": name, "value": items, "layer": layer, "label": "component-" + label, "component": f"item{i}={label}"}
+            for text in ("png,1", "1,png", "png,,jpeg", "png, ,jpeg", ",png", "png,"):
+                for layer in text_layers:
+                    yield {"k": "alt", "opt": name, "text": text, "layer": layer, "component": "item-text"}
+                yield {"k": "envtext", "opt": name, "text": text}
+
+
 def subsets():
     for m in range(1, 16):
         yield [LAYERS[i] for i in range(4) if m >> i & 1]
@@ -728,6 +812,8 @@ def cases(ctx: Ctx):
     for name in names:
         for v in valid_values(name, OPTS[name]):
             yield {"k": "text", "opt": name, "value": v}
+    # 2b. structured values: every component through every value class on its own, native and textual, every layer
+    yield from component_cases(names, q)
     # 3. other spellings (correspondence of the parsers)
     for name in names:
         texts = alt_texts(OPTS[name])
@@ -799,7 +885,11 @@ def run(ctx: Ctx):
     ctx.rule = ("cases: every option (table read from TupimageConfig.__annotations__) x every non-empty subset of the four layers with "
                 "distinct valid values per layer (+ noise options, None entries, labelled/unlabelled dictionaries, config via TUPIMAGE_CONFIG or "
                 "config=path, inside/outside tmux); every valid value class x its textual form from env/kwargs/overrides/file-string/"
-                "file-literal; alternative spellings per parser; wrong-type values per class and layer; unknown keys; multi-option "
+                "file-literal; STRUCTURED values one component at a time (sizes WxH: each of W, H through zero / -1 / negative / 1 / 2^31 / True / "
+                "False / float / None / digit text with the other component good, both bad, arity 0/1/3, nested - natively through kwargs and "
+                "config_overrides and as text through env/kwargs/overrides/file; subspaces B:E: each bound through 12 classes as text; format "
+                "lists: one item of each wrong type in each position): accepted natively => same text accepted everywhere with the same value "
+                "and the configuration survives dump -> load, wrong-type component => rejected naming the option; alternative spellings per parser; wrong-type values per class and layer; unknown keys; multi-option "
                 "multi-layer scenarios; TOML dump/load in three dump modes, through the file layer and through `python -m tupimage.cli "
                 "dump-config`. distinct = canonical JSON of the case; non-trivial = every case")
     try:
